@@ -547,6 +547,20 @@ def accumulate_loops(fn) -> int:
     return done
 
 
+def slice_bounds(tree: ast.AST) -> int:
+    """x[0:n] -> x[:n],  x[a:b:1] -> x[a:b]     (the explicit defaults of a slice)"""
+    done = 0
+    for n in ast.walk(tree):
+        if isinstance(n, ast.Slice):
+            if isinstance(n.lower, ast.Constant) and n.lower.value == 0 and n.lower.value is not False and (n.step is None or (isinstance(n.step, ast.Constant) and n.step.value == 1)):
+                n.lower = None
+                done += 1
+            if isinstance(n.step, ast.Constant) and n.step.value == 1 and n.step.value is not True:
+                n.step = None
+                done += 1
+    return done
+
+
 def boolean_ints(tree: ast.AST) -> int:
     """int(not c) -> (0 if c else 1);  int(<comparison>) -> (1 if <comparison> else 0)      (a truth value used as an index)"""
     done = 0
@@ -703,6 +717,7 @@ def apply(tree: ast.Module) -> int:
     done = import_spellings(tree)
     done += call_arguments(tree)
     done += boolean_ints(tree)
+    done += slice_bounds(tree)
     for node in ast.walk(tree):
         if isinstance(node, FuncDef):
             done += annotated_assignments(node)
